@@ -508,17 +508,13 @@ def run(ctx):
     notseen = [inv.get(h, h) for h in range(1, 29) if dh.seen.get(h) != {1}]
     r4.check(not notseen, 'every-recognised-field-is-recorded-as-seen', 'qmail-inject.c:doheaderfield',
              'fields processed without htypeseen[] being set: %s; the choice between the Resent- recipients and the original ones (and the fields added at the end) is made from these marks, also for fields that are not copied to the output such as Resent-Bcc' % notseen[:8])
-    lists = {}
-    for nm in ('rwtocc', 'rwhr', 'rwhrr'):
-        f = prog.fn(nm, 'qmail-inject.c')
-        lists[nm] = sorted(c.args[1].src() for c in f.calls('rwappend'))
-    r4.check(lists == {'rwtocc': ['&hrlist', '&tocclist'], 'rwhr': ['&hrlist'], 'rwhrr': ['&hrrlist']}, 'rewriters-feed-the-documented-lists', 'qmail-inject.c', '%s' % lists)
     # the rewriting callbacks hand the address back in the order they received it (token822_addrlist goes on to print it), and what they
     # store in the recipient lists is the address in reading order: token reversals come in pairs around token822_unquote()
     class RW(QHooks):
         def __init__(self):
             self.ends = []
             self.unq = []
+            self.slots = []
 
         def tracked_global(self, path):
             return True
@@ -527,8 +523,23 @@ def run(ctx):
             E.set('$rev', fs(1 - g1(E, '$rev', 0)))
             return [Outcome(ret=TOP)]
 
+        LISTS = {'G:hrlist': 'HR', 'G:hrrlist': 'HRR', 'G:tocclist': 'TOCC', 'G:reciplist': 'RCP', 'G:savedh': 'SAV'}
+
+        def precise_arith(self, path):
+            return True
+
+        def materialize(self, E, path):
+            for g_, tag in self.LISTS.items():
+                if path == g_ + '.sa':
+                    return fs(('&', tag + '[0]'))
+                if path == g_ + '.len':
+                    return fs(0)
+            return TOP
+
         def prim_token822_unquote(self, E, x, args):
             self.unq.append(g1(E, '$rev', 0))
+            slot = g1v(args[0])
+            self.slots.append(slot[1] if isinstance(slot, tuple) and slot[0] == '&' else None)
             return [Outcome(ret=fs(1))]
 
         def _n(self, E, x, args):
@@ -543,6 +554,7 @@ def run(ctx):
             if fn.name == self.entry:
                 self.ends.append(g1(E, '$rev', 0))
     badrw = []
+    fed = {}
     for cb in ('rwhr', 'rwhrr', 'rwtocc'):
         f_ = prog.fn(cb, 'qmail-inject.c')
         hrw = RW()
@@ -552,8 +564,11 @@ def run(ctx):
         rep.count_states(e_.states, e_.transitions)
         if not hrw.ends or not hrw.unq:
             raise AnalysisBroken('qmail-inject %s: no return / no token822_unquote() reached' % cb)
+        fed[cb] = sorted(str(s_) for s_ in hrw.slots)
         if any(r_ != 0 for r_ in hrw.ends) or any(u_ != 1 for u_ in hrw.unq):
             badrw.append((cb, 'returns with the address %s' % ('reversed' if any(hrw.ends) else 'in order'), 'stores it %s' % ('in reading order' if all(u_ == 1 for u_ in hrw.unq) else 'reversed')))
+    r4.check(fed == {'rwtocc': ['HR[0]', 'TOCC[0]'], 'rwhr': ['HR[0]'], 'rwhrr': ['HRR[0]']}, 'rewriters-feed-the-documented-lists', 'qmail-inject.c',
+             'list slots the rewritten address is stored in (every list empty before): %s; documented: To/Cc/Bcc addresses go to the header recipient list and the To/Cc list, other recipient fields to the header recipient list, Resent- fields to the resent list' % fed)
     r4.check(not badrw, 'rewriters-hand-the-address-back-as-they-got-it', 'qmail-inject.c', 'callback behaviour: %s; an address left reversed is printed back to front in the rewritten header field (al@one.example becomes example.one@al)' % badrw)
     en = prog.fn('exitnicely', 'qmail-inject.c')
 
@@ -635,6 +650,33 @@ def run(ctx):
     # ---------------------------------------------------------------- 3. rwgeneric order
     r5 = rep.rule('C17.5-rewrite-order', 'R-ORDER', 'rwgeneric: route, extra dot, extra at, no-at (default host), plus, no-dot (default domain), in that order')
     rg = prog.fn('rwgeneric', 'qmail-inject.c')
-    order = [c.callee for c in rg.calls() if c.callee and c.callee.startswith('rw')]
-    r5.check(order == ['rwroute', 'rwextradot', 'rwextraat', 'rwnoat', 'rwplus', 'rwnodot'], 'rewrite-steps-in-documented-order', 'qmail-inject.c:rwgeneric', 'order: %s' % order)
+    STEPS = ['rwroute', 'rwextradot', 'rwextraat', 'rwnoat', 'rwplus', 'rwnodot']
+
+    class RG(QHooks):
+        """rwgeneric() on an ordinary address (three tokens, none of the early-return shapes): the steps as events, each leaving the address non-empty"""
+        def __init__(self):
+            self.seqs = []
+
+        def tracked_global(self, path):
+            return True
+
+        def precise_arith(self, path):
+            return True
+
+        def _step(self, E, x, args):
+            E.set('$seq', fs(tuple(g1(E, '$seq', ())) + (x.callee,)))
+            return [Outcome(ret=TOP)]
+
+        def on_return(self, E, fn, val):
+            if fn.name == 'rwgeneric':
+                self.seqs.append(tuple(g1(E, '$seq', ())))
+    for st_ in STEPS:
+        setattr(RG, 'prim_' + st_, RG._step)
+    hrg = RG()
+    e_ = Engine(db, prog, hrg, max_states=20000)
+    e_.run(rg, {'%s::%s' % (e_.frame_id(rg), rg.params[0]): fs(('&', 'AD')), 'AD.len': fs(3), 'AD.t': fs(('&', 'TK[0]')),
+                'TK[0].type': fs(tm['TOKEN822_ATOM']), 'TK[0].slen': fs(1), 'TK[1].type': fs(tm['TOKEN822_AT']), 'TK[2].type': fs(tm['TOKEN822_ATOM']), 'TK[2].slen': fs(1)})
+    rep.count_states(e_.states, e_.transitions)
+    order = sorted(set(hrg.seqs))
+    r5.check(order == [tuple(STEPS)], 'rewrite-steps-in-documented-order', 'qmail-inject.c:rwgeneric', 'steps applied to an ordinary address a@b: %s; documented: %s' % (order, STEPS))
     rep.assume('the inverse property quote/parse for all addresses and RFC 822 grammar coverage are not decided; only the table agreements that are necessary for it')
